@@ -105,7 +105,10 @@ class P:
             e = self.expr()
             self.expect(";")
             return ("return", e)
-        if v == "auto":
+        if v in ("auto", "T") or (v == "const" and self.peek(1)[1] in ("auto", "T")):
+            # a local of the element type: `auto t = e;`, `const auto t = e;`, `T t = e;`, `const T t = e;`
+            if v == "const":
+                self.next()
             self.next()
             name = self.next()[1]
             self.expect("=")
@@ -382,6 +385,8 @@ class Emitter:
             if v in ("start", "finish"):
                 return ("self.%s" % v, "T")
             if v in env:
+                if v in self.alias:
+                    return ("self", env[v])          # the operand IS *this (`r -= r`): every read sees the assignments made so far
                 return (v if v != "lower" else "lower'", env[v])
             if self.ORD and v == "TMAX":
                 return ("FloatLike.fmax", "T")
@@ -540,6 +545,24 @@ class Emitter:
             return "%slet self : %s :=\n%s  if %s then\n%s\n%s  else\n%s\n%s" % (pad, self.RT, pad, c, a, pad, b, r)
         raise TranslateError("unknown statement " + s[0])
 
+    alias = ()
+
+    def emit_alias(self, me):
+        """a member that assigns to *this and takes its range operand by reference, called with the operand aliasing *this"""
+        if me.ret != "range_t&" or [t for _, t in me.params] != ["R"]:
+            return None
+        self.alias = (me.params[0][0],)
+        try:
+            body = self.prepare(me.body)
+            ss = P(tokenize(body)).block()
+            text = self.stmts(ss, {n: t for n, t in me.params}, me.lname + "Self", 1)
+        finally:
+            self.alias = ()
+        if text is None:
+            raise TranslateError("method %s has no result" % me.cname)
+        return "/-- `r %s r`: the operand is the object itself -/\ndef %s.%sSelf%s (self : %s) : %s :=\n%s\n" % (
+            me.cname, self.NS, me.lname, self.BINDERS, self.RT, self.RT, text)
+
     def emit_method(self, me):
         if me.ret == "void":
             return None
@@ -568,6 +591,10 @@ class Emitter:
             t = self.emit_method(me)
             if t is not None:
                 out[me.lname] = t
+                ta = self.emit_alias(me)
+                if ta is not None:
+                    out[me.lname + "Self"] = ta
+                    self.deps[me.lname + "Self"] = set(self.deps.get(me.lname, ())) | {me.lname}
         # free functions
         free_txt = {}
         for fn in ("next_value", "prev_value"):
